@@ -23,6 +23,7 @@ RULE = (
 )
 ASSUMPTIONS = [
     "published slit-pore HK equation with Kirkwood-Mueller dispersion constants (written independently in this file)",
+    "Saito-Foley cylinder series summed to convergence, compared with the closure handed to the solver; allowed: three times the error of the documented truncation after 25 x radius terms",
     "published Rege-Yang slit potentials (one layer: two walls; more layers: (2 eps_hgg + (M-2) eps_ggg)/M with eps_ggg = 2 x guest-guest term), compared with the closure handed to the solver at relative 2e-5 "
     "(pyGAPS rounds (2/5)^(1/6) to 7 digits)",
     "a solved width is accepted if the pressure lies inside the band exp(phi(L -+ 5e-5 nm)) (solver xatol 1e-5) or the width "
@@ -156,6 +157,46 @@ def ry_slit_lnp(L, ads, mat, T):
         eps_ggg = 2 * guest * lj(sig_g, dg)
         eps = (2 * eps_hgg + (M - 2) * eps_ggg) / M
     return N_A / (R_GAS * T) * eps
+
+
+def sf_cylinder_lnp(L, ads, mat, T, nterms=None):
+    """Saito-Foley (AIChE J. 37 (1991) 429) cylinder equation with the series summed to convergence (or over nterms terms); L = pore radius (nm)."""
+    d0 = (ads["molecular_diameter"] + mat["molecular_diameter"]) / 2
+    pa, pm = ads["polarizability"] * 1e-27, mat["polarizability"] * 1e-27
+    xa, xm = ads["magnetic_susceptibility"] * 1e-27, mat["magnetic_susceptibility"] * 1e-27
+    A_a = 1.5 * M_E * C_L**2 * pa * xa
+    A_m = 6 * M_E * C_L**2 * pa * pm / (pa / xa + pm / xm)
+    x = d0 / L
+    p10, p4 = 21.0 / 32.0 * x**10, x**4
+    alpha = beta = 1.0
+    total = p10 - p4
+    for k in range(1, nterms if nterms is not None else 200000):
+        alpha *= ((-4.5 - k) / k)**2
+        beta *= ((-1.5 - k) / k)**2
+        term = (1 - x)**(2 * k) / (k + 1) * (alpha * p10 - beta * p4)
+        total += term
+        if nterms is None and abs(term) < 1e-17 * abs(total):
+            break
+    return 0.75 * math.pi * N_A / (R_GAS * T) * (ads["surface_density"] * A_a + mat["surface_density"] * A_m) / (d0 * 1e-9)**4 * total
+
+
+def _check_hk_cylinder_potential(ctx, ads, mat, T, r):
+    """The potential closure handed to the solver against the converged Saito-Foley series.
+
+    pyGAPS truncates the series after 25 x radius terms ("ensures that layer convergence is achieved"). The error of exactly
+    that documented truncation (computed here, 1e-6 ... 4e-3 of ln p depending on d0 / radius) is allowed three times over; a coarser
+    truncation, or any other deviation, is not."""
+    fun = _CAPTURE[-1]["fun"]
+    d0 = (ads["molecular_diameter"] + mat["molecular_diameter"]) / 2
+    for L in [r.uniform(d0 * 1.03, 0.8) for _ in range(4)] + [r.uniform(0.8, 2.0) for _ in range(8)]:
+        got, exp = float(fun(L)), sf_cylinder_lnp(L, ads, mat, T)
+        allowed = max(1e-6, 3 * abs(sf_cylinder_lnp(L, ads, mat, T, nterms=max(1, int(L * 25))) / exp - 1))
+        ctx.count("hk_cylinder_potential", "radius<0.8nm" if L < 0.8 else "radius>=0.8nm")
+        ctx.case(["hk-cylinder-potential", round(L, 1)])
+        if not close(got, exp, allowed, 1e-12):
+            ctx.violation("HK/cylinder/potential-vs-converged-series", "the potential handed to the solver is not the Saito-Foley series summed to convergence (within three times the error of the documented truncation)", L=L, allowed=allowed, got=got, expected=exp,
+                          ads=ads, mat=mat, T=T)
+            return
 
 
 def _check_ry_slit_potential(ctx, ads, mat, T, r):
@@ -372,6 +413,8 @@ def _run_residual(case, ctx):
         return
     if model.startswith("RY") and geo == "slit":
         _check_ry_slit_potential(ctx, ads, mat, T, r)
+    if model.startswith("HK") and geo == "cylinder":
+        _check_hk_cylinder_potential(ctx, ads, mat, T, r)
     factor = 1.0 if (geo == "slit" or model.startswith("RY")) else 2.0
     if model.startswith("RY") and geo != "slit":
         factor = 2.0
@@ -443,6 +486,8 @@ def finalize(ctx):
     ry = ctx.tables.get("ry_slit_potential", {})
     if ry.get("single-layer", 0) < 10 or ry.get("multi-layer", 0) < 10:
         reasons.append("Rege-Yang slit potential compared at fewer than 10 widths per regime (%s)" % ry)
+    if ctx.tables.get("hk_cylinder_potential", {}).get("radius>=0.8nm", 0) < 10:
+        reasons.append("Saito-Foley cylinder potential compared at fewer than 10 radii above 0.8 nm")
     if sum(ctx.tables.get("forward_slit", {}).values()) < 20:
         reasons.append("fewer than 20 forward slit problems")
     for label, (hit, tot) in ctx.reach.items():
